@@ -32,8 +32,8 @@ class VerusResult:
         self.version = ''
 
 
-def run_verus(path, seed=0, rlimit=None, extra=(), timeout=1800):
-    cmd = ['verus', path, '--output-json', '--time', '--multiple-errors', '20', '--error-format=json',
+def run_verus(path, seed=0, rlimit=None, extra=(), timeout=1800, multiple_errors=20):
+    cmd = ['verus', path, '--output-json', '--time', '--multiple-errors', str(multiple_errors), '--error-format=json',
            '--smt-option', f'smt.random_seed={seed}'] + list(extra)
     if rlimit:
         cmd += ['--rlimit', str(rlimit)]
